@@ -190,11 +190,35 @@ def configs(thorough, seed):
     return out
 
 
+def gpt_case(part, cfg):
+    """GPT-NeoX: one clip scale shared by every layer and every rank also
+    under model parallelism (oracle and stand-ins of C11)."""
+    from vf.checks import c11
+
+    c11.fixed_case(part, (cfg, ('S0-lowest-eager',)))
+
+
+def any_case(part, item):
+    if item[0] == 'gpt':
+        gpt_case(part, item[1])
+    else:
+        case(part, item)
+
+
 def main(run: core.Run):
     thorough = run.tier == 'thorough'
     items = configs(thorough, run.seed)
-    core.pmap(run, case, items,
-              weight=lambda it: it[0]['world'] ** 2 * len(it[0]['history']))
+    for (dp, mp), bias, kl in itertools.product(
+            [(2, 1), (1, 2), (2, 2)], (True, False), (1e-3, 1e-1)):
+        kk = dict(damping=0.05, factor_decay=0.5, kl_clip=kl, lr=0.1,
+                  allreduce_bucket_cap_mb=25.0)
+        items.append(('gpt', {'dp': dp, 'mp': mp, 'bias': bias, 'batch': 2,
+                              'seed': run.seed, 'kfac': kk, 'loss_mult': 4.0,
+                              'gmodel': 'gpt2l',
+                              'history': [['train']] * 2}))
+    core.pmap(run, any_case, items,
+              weight=lambda it: 30 if it[0] == 'gpt' else
+              it[0]['world'] ** 2 * len(it[0]['history']))
     run.c['states'] = run.c.get('evaluations', 0)
     run.c['transitions'] = run.c.get('evaluations', 0)
     run.c['distinct_nontrivial'] = len(run.distinct.get('nontrivial', ()))
@@ -211,12 +235,16 @@ def main(run: core.Run):
         'step and rank with nu from the stated formula; non-trivial = '
         'configurations in which clipping was active (nu<1)')
     run.sample(items[len(items) // 3][0])
-    run.sample(items[-1][0])
-    run.assumptions.append('GPT-NeoX clipping is covered by C11')
+    run.sample(items[-1][1])
+    run.assumptions.append('GPT-NeoX runs use the stand-ins and oracle of '
+                           'C11 (gptenv.py)')
 
 
 def replay(run, data):
     d = data['detail']
     part = core.Part()
-    case(part, (d['cfg'], d['schedule']))
+    if 'dp' in d['cfg']:
+        gpt_case(part, d['cfg'])
+    else:
+        case(part, (d['cfg'], d['schedule']))
     run.merge(part.dump())
